@@ -123,7 +123,7 @@ func main() {
 	for _, c := range classes {
 		r.Require("class/"+c+"/topologies", int64(nTopo/len(kinds)))
 		r.Require("class/"+c+"/enforce_queries_with_upstream_packets", int64(nTopo/len(kinds))*2)
-		r.Require("class/"+c+"/enforce_budget_crossed_runs", int64(nTopo/len(kinds)))
+		r.Require("class/"+c+"/enforce_budget_crossed_runs", int64(max(1, nTopo/len(kinds)/4)))
 	}
 	r.Require("replies_judged", int64(nTopo*8))
 	r.Require("terminated_in_time", int64(nTopo*8))
